@@ -292,7 +292,7 @@ def explore_shard(acc, shard):
         layer = "K wide rows (1..16 columns, one note walked)"
         for cols in range(1, 17):
             for c in range(cols):
-                for cell in ("1", "M[3]", "2[10]"):
+                for cell in ("1", "M[3]", "2[10]", "K[1000]", "1[123456]"):
                     for pre in ("0", "1[9]"):
                         cells = [pre if (i < c and i == 0) else "0" for i in range(cols)]
                         cells[c] = cell
@@ -312,6 +312,23 @@ def explore_shard(acc, shard):
                                 acc.outcome("sixteen columns")
                             if fails:
                                 report(acc, layer, {"kind": "text", "text": text}, fails)
+        # every cell of the row keysounded, with indices of 1 .. 6 digits (rows of up to 16 x 9 characters)
+        for cols in range(1, 17):
+            for ks in ("[7]", "[10]", "[100]", "[1000]", "[123456]"):
+                for nrows, r in ((1, 0), (4, 0), (4, 3)):
+                    rows = ["0" * cols] * nrows
+                    rows[r] = "".join("124MLFK"[i % 7] + ks for i in range(cols))
+                    sections = [[rows, ["0" * cols]]]
+                    text = N.render(sections)
+                    core.guard_cheap(acc, {"kind": "text", "text": text})
+                    fails = check_text(text, N.intended_notes(sections), cols, deep=True)
+                    acc.count("evaluations")
+                    acc.count("states")
+                    acc.count("transitions")
+                    acc.count("nontrivial")
+                    acc.outcome("row in which every cell carries a keysound")
+                    if fails:
+                        report(acc, layer, {"kind": "text", "text": text}, fails)
         acc.sample(layer, {"text": text})
     elif kind == "P":
         _, pidx = shard
@@ -413,6 +430,7 @@ def explore(run):
     core.require(acc.outcomes["three player sections"] > 0, "no three-player text")
     core.require(acc.outcomes["CRLF text"] > 0, "no CRLF text")
     core.require(acc.outcomes["keysounded cell"] > 0, "no keysound")
+    core.require(acc.outcomes["row in which every cell carries a keysound"] > 0, "no fully keysounded row")
     core.require(acc.outcomes["indented keysounded row that is not the first of its measure"] > 0, "no indented keysounded row")
     core.require(acc.outcomes["sixteen columns"] > 0, "no 16-column row")
     core.require(acc.outcomes["pair across players"] > 0, "no cross-player pair")
